@@ -2,7 +2,7 @@
    instance per field (key, value), plus the instances of the embedded end items.  Proved
    separately from the ownership invariant: the end-item instances of a container never change. *)
 From Coq Require Import ZArith List Bool Arith Lia Permutation.
-From Life Require Import LifeSpec LifeModel LifeBase LifeLoops LifeArray LifeNode LifeSpecProofs LifeStep LifeMain.
+From Life Require Import LifeSpec LifeModel LifeBase LifeLoops LifeArray LifeNode LifeSpecProofs LifeHint LifeStep LifeMain.
 Import ListNotations.
 
 Lemma bind_inv {A B} (m : M A) (f : A -> M B) w r : bind m f w = Ok r -> exists a w1, m w = Ok (a, w1) /\ f a w1 = Ok r.
@@ -121,6 +121,8 @@ Proof.
          end; minv;
     first [ apply ssame_refl | eapply insert_sent; eauto; fail | eapply fresh_sent; eauto; fail ].
 Qed.
+Lemma insert_tie_sent c p kr vr j w c' w' : nc_insert_tie c p kr vr j w = Ok (c', w') -> ssame c c'.
+Proof. unfold nc_insert_tie. intros E. minv. eapply fresh_sent; eauto. Qed.
 Lemma insert_all_map_sent src : forall c prev w c' w', nc_insert_all_map c prev src w = Ok (c', w') -> ssame c c'.
 Proof.
   induction src as [|n r IH]; intros c prev w c' w' E; cbn [nc_insert_all_map] in E; minv; [apply ssame_refl|].
@@ -197,7 +199,8 @@ Proof.
                     | let ii := fresh "ii" in let wa := fresh "wa" in let wb := fresh "wb" in
                       let jj := fresh "jj" in let wc := fresh "wc" in let wd := fresh "wd" in
                       apply with_arg_inv in Em; destruct Em as (ii & wa & wb & Em);
-                      apply with_arg_inv in Em; destruct Em as (jj & wc & wd & Em); eapply insert_hint_sent; eauto; fail
+                      apply with_arg_inv in Em; destruct Em as (jj & wc & wd & Em);
+                      first [ eapply insert_hint_sent; eauto; fail | eapply insert_tie_sent; eauto; fail ]
                     | eapply remove_keys_sent; eauto; fail
                     | let ii := fresh "ii" in let wa := fresh "wa" in let wb := fresh "wb" in
                       apply with_arg_inv in Em; destruct Em as (ii & wa & wb & Em); eapply remove_key_sent; eauto; fail ]
@@ -268,3 +271,46 @@ Qed.
 Lemma stored_count_proof nv ops st : run (init nv) ops = Ok st ->
   length (heap (sw st)) = sbase (abs st) + sstored (abs st).
 Proof. intros E. rewrite (live_count_proof nv ops st E). apply slive_split. Qed.
+
+(* ---------------------------------------------------------------------------------------- *)
+(* the MultiMap hinted insert whose landing place the tree shape decides (OInsTie)            *)
+(* ---------------------------------------------------------------------------------------- *)
+(* the position argument of nc_fresh only says where the new node is put into the item sequence *)
+Lemma fresh_pos_only c p kr v w c' w' : nc_fresh c p kr v w = Ok (c', w') ->
+  exists c0 nd, c' = set_items c0 (insert_at p nd (citems c0)) (cfree c0) /\
+    forall q, nc_fresh c q kr v w = Ok (set_items c0 (insert_at q nd (citems c0)) (cfree c0), w').
+Proof.
+  unfold nc_fresh. intros E.
+  apply bind_inv in E. destruct E as (c1 & w1 & E1 & E).
+  apply bind_inv in E. destruct E as (c2 & w2 & E2 & E).
+  apply bind_inv in E. destruct E as (nd & w3 & E3 & E).
+  apply ret_inv in E. inversion E. subst.
+  exists c2, nd. split; [reflexivity|]. intros q.
+  run E1. run E2. run E3. reflexivity.
+Qed.
+
+(* in every reachable state, whatever offset j the tree shape produces: the hinted MultiMap insert of
+   the tie case does to the world exactly what insert(key, value) does - the same events in the same
+   order, the same instances and allocations afterwards - and the two resulting containers differ
+   only in the place of the one new node in the item sequence *)
+Lemma tie_insert_position_only_proof nv ops st x n p kr vr j c1 w1 :
+  run (init nv) ops = Ok st -> getv (svars st) x = Some (CN n) -> sorted (ckind n) = true -> unique (ckind n) = false ->
+  In kr (dom (heap (sw st))) ->
+  nc_insert_tie n p kr vr j (sw st) = Ok (c1, w1) ->
+  exists c0 nd i1 i2,
+    c1 = set_items c0 (insert_at i1 nd (citems c0)) (cfree c0) /\
+    nc_insert n PBack kr (VRef vr) (sw st) = Ok (set_items c0 (insert_at i2 nd (citems c0)) (cfree c0), w1).
+Proof.
+  intros E G SO UQ Ik ET.
+  destruct (run_init_ok nv ops) as (st0 & E0 & IV & SW & _). rewrite E in E0. inversion E0. subst st0.
+  destruct (inv_get st x _ IV G) as (H & _ & _). cbn [cids] in H.
+  destruct (hint_reads n (sw st) H SO) as (_ & Lsel & _).
+  unfold nc_insert_tie in ET. revert ET. run (rd_ok (sw st) kr Ik). run (rd_list_ok (sw st) _ Lsel). intros ET.
+  destruct (fresh_pos_only _ _ _ _ _ _ _ ET) as (c0 & nd & E1 & Q).
+  exists c0, nd, (S (pos_idx p (length (citems n))) + j), (ins_pos (val (sw st) kr) (asel (ckind n) (nabs (sw st) n))).
+  split; [exact E1|].
+  rewrite (insert_is_fresh n kr vr (sw st) H SO Ik (ins_pos (val (sw st) kr) (asel (ckind n) (nabs (sw st) n)))).
+  - apply Q.
+  - intros U. rewrite UQ in U. discriminate.
+  - reflexivity.
+Qed.
